@@ -436,3 +436,79 @@ def rule_r6(ctx):
                                and astq.text(x.value.func.value) == astq.text(x.targets[0]) and x.value.args and getattr(x.value.args[0], "value", None) == "utf-8" for x in n.body)
     ctx.ob(R6, btc.qual, "text-mode files are UTF-8 encoded block by block", ok)
 
+
+
+# ---------------------------------------------------------------------------- R8 (added after seeded change C11/short-read-taken-for-eof)
+def _run_r8(ctx):
+    from ..model import FuncInfo
+    from ..rows import GenRule, effect_rows
+    from ..terms import K, T, destruct, subterms
+
+    m = ctx.model
+    R8 = ctx.rule("C11-R8", "a file body is read to its end: the block reader inside body_to_chunks stops only when a read returned nothing (a short read is not end-of-file: raw streams, pipes and sockets return what they have), and every block it read is yielded (UTF-8 encoded for text files)", "E10 effect rows of the nested reader generator")
+    btc = m.func("urllib3.util.request.body_to_chunks")
+    inner = [n for n in ast.walk(btc.node) if isinstance(n, (ast.FunctionDef,)) and n is not btc.node
+             and any(isinstance(c, ast.Call) and isinstance(c.func, ast.Attribute) and c.func.attr == "read" for c in ast.walk(n))]
+    ctx.sites(R8, len(inner), 1, "block readers nested in body_to_chunks")
+
+    class Reader(GenRule):
+        def call_hook(self, it, st, node, recv, pos, kw):
+            f = node.func
+            if isinstance(f, ast.Attribute) and f.attr == "read":
+                s = st.copy()
+                n = (s.ts.get("reads", 0) + 1) % 2
+                s.ts["reads"] = n
+                sym = T("block", str(n))  # a fresh value per read (two generations are enough for the loop fixpoint)
+                s.facts.pop(sym, None)
+                s.ts["last_block"] = sym
+                s.ts["pending"] = sym
+                return [Out("normal", s, AV("unk", sym=sym))]
+            return super().call_hook(it, st, node, recv, pos, kw)
+
+        def on_yield(self, it, stmt, av, outs):
+            from ..terms import term_of
+            res = []
+            for o in outs:
+                if o.kind != "normal":
+                    continue
+                t = term_of(av)
+                gen = t.replace("block(0)", "block(*)").replace("block(1)", "block(*)")
+                ys = set(o.st.ts.get("yields", ()))
+                ys.add(gen)
+                o.st.ts["yields"] = tuple(sorted(ys))  # a set, so that the loop reaches a fixpoint
+                lb = o.st.ts.get("pending")
+                if lb and (t == lb or lb in list(subterms(t))):
+                    o.st.ts["pending"] = None
+                res.append(o)
+            return res
+
+    from ..interp import AV, Out
+    for node in inner:
+        fi = FuncInfo(qual=f"{btc.qual}.{node.name}", module=btc.module, cls=None, name=node.name, node=node)
+        rows = [r for r in effect_rows(ctx, fi, Reader(ctx, btc.module), None) if r.returns]
+        ends = 0
+        seen = set()
+        for r in rows:
+            lb = r.st.ts.get("last_block")
+            empty = r.truth(lb) if lb else None
+            pend = r.st.ts.get("pending")
+            key = (empty, bool(pend), r.st.ts.get("yields", ()))
+            if key in seen:
+                continue
+            seen.add(key)
+            ends += 1
+            ok = empty is False
+            ctx.ob(R8, fi.qual, f"the reader ends with the last read known empty={empty is False}", ok,
+                   "" if ok else "the reader stops after a read that returned data (e.g. on a short read): the rest of the file is never sent, the request is framed as complete", witness=r.witness(), node=node)
+        ctx.sites(R8, ends, 1, f"ways {node.name} ends")
+        ys = sorted({y for r in rows for y in r.st.ts.get("yields", ())})
+        oky = bool(ys) and all("block(*)" in y for y in ys)
+        ctx.ob(R8, fi.qual, "every yield hands on a block that was read (possibly encoded)", oky, str(ys[:3]))
+
+
+_run_base11 = run
+
+
+def run(ctx):  # noqa: F811
+    _run_base11(ctx)
+    _run_r8(ctx)
